@@ -87,7 +87,7 @@ inline J get_op(Rng &r, const Ids &d, const cfg::World &w) {
 	J s = J::arr(); J i = J::arr();
 	static const char *lists[] = {"boards", "boards_connected", "connected_points", "connected_signals", "connected_peripherals", "connected_segments", "connected_reversers",
 	                              "connected_boosters", "boosters", "track_outputs", "connected_track_outputs", "trains", "trains_on_track"};
-	switch (r.below(26)) {
+	switch (r.below(27)) {
 		case 0: case 1: o.set("fn", "state"); break;
 		case 2: o.set("fn", "point_state"); s.push(pick(r, d.points)); break;
 		case 3: o.set("fn", "signal_state"); s.push(pick(r, d.signals)); break;
@@ -110,6 +110,7 @@ inline J get_op(Rng &r, const Ids &d, const cfg::World &w) {
 		case 22: { o.set("fn", "board_id"); const uint8_t *u = w.boards[r.below(w.boards.size())].uid; for (int q = 0; q < 7; q++) i.push((int) (r.chance(900) ? u[q] : r.byte())); break; }
 		case 23: { o.set("fn", "nodeaddr_by_uniqueid"); const uint8_t *u = w.boards[r.below(w.boards.size())].uid; for (int q = 0; q < 7; q++) i.push((int) (r.chance(900) ? u[q] : r.byte())); break; }
 		case 24: { o.set("fn", "uniqueid_by_nodeaddr"); const auto &a = w.boards[r.below(w.boards.size())].addr; for (int q = 0; q < 3; q++) i.push(q < (int) a.size() ? (int) a[(size_t) q] : 0); break; }
+		case 26: { static const char *ix[] = {"point_state_index", "signal_state_index", "segment_state_index"}; size_t k = r.below(3); o.set("fn", ix[k]); s.push(pick(r, k == 0 ? d.points : k == 1 ? d.signals : d.segments, 200, 0)); break; }   // (NULL is not part of their contract: strcmp on the argument)
 		case 25: { o.set("fn", "train_id"); if (!w.trains.empty() && r.chance(800)) { auto &t = w.trains[r.below(w.trains.size())]; i.push((int) t.addrl); i.push((int) t.addrh); } else { i.push((int) r.byte()); i.push((int) r.below(40)); } break; }
 	}
 	o.set("s", s); o.set("i", i);
